@@ -121,6 +121,8 @@ def run_case(case):
     cls.append('flags_%d%d' % (case['pre'], case['post']))
     if case['start'][0] < 1970:
         cls.append('before_1970')
+    if case['start'][0] < 1700 or case['start'][0] > 2250:
+        cls.append('centuries_away')
     if how != 'ctor':
         cls.append('flags_given_as_' + how)
     if tz:
@@ -135,10 +137,20 @@ def cases(draw):
     start, end = draw(gen.ranges())
     case = {'start': start, 'end': end, 'pre': draw(st.booleans()), 'post': draw(st.booleans()),
             'flags_how': draw(st.sampled_from(['ctor', 'ctor', 'ctor', 'attr', 'numpy', 'int', 'pre_only', 'defaults']))}
-    if draw(st.sampled_from([False] * 5 + [True])):
+    if draw(st.sampled_from([False] * 11 + [True])):
+        # centuries away from today: the clock is calendar arithmetic, whatever resolution the timestamps use
+        y = draw(st.sampled_from([1600, 1677, 2262, 2300, 3000]))
+        d_ = D.date(y, draw(st.integers(1, 12)), draw(st.integers(1, 28)))
+        e_ = d_ + D.timedelta(days=draw(st.integers(0, 40)))
+        case['start'] = [d_.year, d_.month, d_.day] + start[3:]
+        case['end'] = [e_.year, e_.month, e_.day] + end[3:]
+        return case
+    if start[0] >= 1990 and draw(st.sampled_from([False] * 5 + [True])):
         # the same instants written in another zone; times of day chosen so that the local and the UTC calendar day agree
         tz = draw(st.sampled_from(['America/New_York', 'Asia/Tokyo', 'Europe/London']))
-        lo, hi = {'America/New_York': (5, 18), 'Asia/Tokyo': (10, 23), 'Europe/London': (4, 22)}[tz]       # (never an hour a clock change can make ambiguous or skip)
+        # the range's days are the calendar days of the timestamps as written (never an hour a clock change can make
+        # ambiguous or skip)
+        lo, hi = {'America/New_York': (4, 23), 'Asia/Tokyo': (0, 23), 'Europe/London': (4, 23)}[tz]
         h0 = draw(st.integers(lo, hi))
         h1 = draw(st.integers(h0, hi))
         case['start'] = start[:3] + [h0, draw(st.sampled_from([0, 30])), 0]
